@@ -4,14 +4,14 @@ package operations
 
 // Machine-checked contracts (comment-only; compiled to nothing). Checked by /verif/bin/stfsvc.
 
-//@ define opsReady(o ref) bool = o.backend.GetWriter != nil && o.backend.CloseWriter != nil && o.backend.GetReader != nil && o.backend.CloseReader != nil && o.metadata.Metadata != nil
+//@ define opsReady(o ref) bool = o.backend.GetWriter != nil && o.backend.CloseWriter != nil && o.backend.GetReader != nil && o.backend.CloseReader != nil && o.metadata.Metadata != nil && o.pipes.RecordSize >= 1
 //@ define opsIdle(o ref) bool = !driveHeld && !mutexHeld[addr(o.diskOperationLock)]
 
 //@ func (*Operations).Delete
 //@   property C10
 //@   safety C10
 //@   requires o != nil && opsReady(o) && opsIdle(o)
-//@   modifies *, driveHeld, mutexHeld[addr(o.diskOperationLock)], tapeWrites, indexWrites
+//@   modifies *, driveHeld, mutexHeld[addr(o.diskOperationLock)], tapeWrites, indexWrites, ghosts(C04)
 //@   ensures [drive-free] !driveHeld
 //@   ensures [ops-free] !mutexHeld[addr(o.diskOperationLock)]
 
@@ -19,15 +19,17 @@ package operations
 //@   property C10
 //@   safety C10
 //@   requires o != nil && opsReady(o) && opsIdle(o)
-//@   modifies *, driveHeld, mutexHeld[addr(o.diskOperationLock)], tapeWrites, indexWrites
+//@   modifies *, driveHeld, mutexHeld[addr(o.diskOperationLock)], tapeWrites, indexWrites, ghosts(C04)
 //@   ensures [drive-free] !driveHeld
 //@   ensures [ops-free] !mutexHeld[addr(o.diskOperationLock)]
 
 //@ func (*Operations).Restore
+//@   property C04
+//@   at call Fetch assert [uses-row-position] arg_record == dbhdr.Record && arg_block == dbhdr.Block
 //@   property C10
 //@   safety C10
 //@   requires o != nil && opsReady(o) && opsIdle(o)
-//@   modifies *, driveHeld, mutexHeld[addr(o.diskOperationLock)]
+//@   modifies *, driveHeld, mutexHeld[addr(o.diskOperationLock)], ghosts(C04)
 //@   ensures [drive-free] !driveHeld
 //@   ensures [ops-free] !mutexHeld[addr(o.diskOperationLock)]
 
@@ -35,7 +37,7 @@ package operations
 //@   property C10
 //@   safety C10
 //@   requires o != nil && opsReady(o) && opsIdle(o) && getSrc != nil
-//@   modifies *, driveHeld, mutexHeld[addr(o.diskOperationLock)], tapeWrites, indexWrites
+//@   modifies *, driveHeld, mutexHeld[addr(o.diskOperationLock)], tapeWrites, indexWrites, ghosts(C04)
 //@   ensures [drive-free] !driveHeld
 //@   ensures [ops-free] !mutexHeld[addr(o.diskOperationLock)]
 
@@ -43,14 +45,14 @@ package operations
 //@   property C10
 //@   safety C10
 //@   requires o != nil && opsReady(o) && !driveHeld && getSrc != nil
-//@   modifies *, driveHeld, tapeWrites, indexWrites
+//@   modifies *, driveHeld, tapeWrites, indexWrites, ghosts(C04)
 //@   ensures [drive-free] !driveHeld
 
 //@ func (*Operations).Update
 //@   property C10
 //@   safety C10
 //@   requires o != nil && opsReady(o) && opsIdle(o) && getSrc != nil
-//@   modifies *, driveHeld, mutexHeld[addr(o.diskOperationLock)], tapeWrites, indexWrites
+//@   modifies *, driveHeld, mutexHeld[addr(o.diskOperationLock)], tapeWrites, indexWrites, ghosts(C04)
 //@   ensures [drive-free] !driveHeld
 //@   ensures [ops-free] !mutexHeld[addr(o.diskOperationLock)]
 
@@ -58,6 +60,6 @@ package operations
 //@   property C10
 //@   safety C10
 //@   requires o != nil && opsReady(o) && opsIdle(o)
-//@   modifies *, driveHeld, mutexHeld[addr(o.diskOperationLock)], tapeWrites, indexWrites
+//@   modifies *, driveHeld, mutexHeld[addr(o.diskOperationLock)], tapeWrites, indexWrites, ghosts(C04)
 //@   ensures [drive-free] !driveHeld
 //@   ensures [ops-free] !mutexHeld[addr(o.diskOperationLock)]
